@@ -135,7 +135,7 @@ func runCheck(prop, tier string, workers int, only string, noReplay bool) int {
 				nviol++
 				continue
 			}
-			if strings.HasPrefix(v.Label, "C17.") {
+			if strings.HasPrefix(v.Label, "C17.") || strings.Contains(v.Label, "[static]") {
 				// non-interference obligations: the evidence is the store site found by the executor;
 				// a data race is schedule dependent and is not replayed natively (DESIGN section 4, C17)
 				fmt.Printf("VIOLATION property=%s replay=%s\n", prop, cex)
